@@ -58,6 +58,11 @@ type SFile struct {
 	// the value this file gives the constant kSize (0: the file does not declare it): filters spelled alike over it mean something
 	// else in every file -- what a rule means is what its own file says, whatever was loaded before under the same spelling
 	KSize int `json:"ksize,omitempty"`
+	// the interface this file declares as `marker` (0: none; k: interface{ Mark(int<8k>) }): filters that name "gorules.marker"
+	// are spelled alike in every file and mean the file's own type
+	Marker int `json:"marker,omitempty"`
+	// every syntax rule of the file has a list pattern (computed)
+	ListOnly bool `json:"list_only,omitempty"`
 }
 
 type Bundle struct {
@@ -75,6 +80,8 @@ type RFile struct {
 var syntaxPats = []string{
 	"$x + $y", "$x - $y", "$x * $y", "use($x)", "-$x", "$x[$_]", "($x)", "return $x",
 	"if $x { $*_ }", "{ $*_; use($x) }", "{ $x := $_; $*_ }", "$_ = $x",
+	// list patterns: statements, expressions, declarations (no node of their own: tried on every node that holds such a list)
+	"$x := $_; use($x)", "$x, $_", "func ($x) Mark($_) {}; type $_ struct{}", "$_; use($x)",
 }
 var commentPats = []string{`TODO`, `FIXME|TODO`, `\((alice|bob)\)`}
 var filters = []string{
@@ -84,6 +91,8 @@ var filters = []string{
 	`!m["x"].Type.Implements("io.Reader")`, `!m["x"].Type.HasMethod("io.Writer.Write")`, `!m["x"].Type.Implements("error")`,
 	// one spelling over the constant kSize, to which every file gives its own value
 	`m["x"].Type.Size == kSize`, `m["x"].Type.Size != kSize && m["x"].Type.Size >= kSize/2`,
+	// one spelling of a type every file declares for itself
+	`m["x"].Type.Implements("gorules.marker")`, `!m["x"].Type.HasMethod("gorules.marker.Mark")`,
 }
 
 // kSizeFilters: the indices of the filters that are spelled over the constant of the file
@@ -154,6 +163,9 @@ func renderSFile(pkg string, sf *SFile, bundles []Bundle, broken bool, declBundl
 	}
 	if sf.KSize != 0 {
 		fmt.Fprintf(&sb, "\nconst kSize = %d\n", sf.KSize)
+	}
+	if sf.Marker != 0 {
+		fmt.Fprintf(&sb, "\ntype marker interface{ Mark(%s) }\n", markerArg(sf.Marker))
 	}
 	if len(bundles) != 0 {
 		sb.WriteString("\nfunc init() {\n")
@@ -232,6 +244,40 @@ func f(a8, b8 int64, a4, b4 int32, a2, b2 int16, a1, b1 int8, xs []int64, ok boo
 }
 
 func g(a4 int32) int32 { return (a4) }
+
+type t1 struct{}
+
+func (t1) Mark(int8) {}
+
+type t2 struct{}
+
+func (t2) Mark(int16) {}
+
+type t4 struct{}
+
+func (t4) Mark(int32) {}
+
+type t8 struct{}
+
+func (t8) Mark(int64) {}
+
+func h(a8 int64, a4 int32, ok bool) int64 {
+	use(t1{})
+	use(t2{})
+	use(t4{})
+	use(t8{})
+	_ = (t4{})
+	_ = (t1{})
+	use(a8, a4)
+	use(a4, a8)
+	_ = [2]int64{a8, 2}
+	switch {
+	case ok:
+		d4 := a4
+		use(d4)
+	}
+	return a8
+}
 `
 
 // ------------------------------------------------------------------ running
@@ -263,6 +309,11 @@ func (w *world) key(n ast.Node) string {
 			}
 		}
 		return "c?"
+	}
+	if s, ok := n.(*gogrep.NodeSlice); ok {
+		if h := w.holderOf(s); h != nil {
+			return w.key(h)
+		}
 	}
 	k := fmt.Sprintf("%d:%d:%T", w.t.Fset.Position(n.Pos()).Offset, w.t.Fset.Position(n.End()).Offset, n)
 	if _, ok := w.nodeTags[k]; !ok {
@@ -409,6 +460,11 @@ type Output struct {
 	Sources    []string            `json:"sources"`
 	Filters    [][]string          `json:"filters"`
 	Acc        map[string][]string `json:"acc"`       // uid -> node keys the rule reports when loaded alone
+	// uid -> node keys the rule (the same stand-alone file) reports on an engine that loaded another file before
+	AccAfter      map[string][]string `json:"acc_after"`
+	MarkerFilters []int               `json:"marker_filters"`
+	ListPats      []int               `json:"list_pats"`
+	SyntaxPats    []string            `json:"syntax_pats"`
 	AccErr     map[string]string   `json:"acc_err"`   // uid -> load error of the stand-alone file (bad rules)
 	NodeTags   map[string]int      `json:"node_tags"` // node key -> bucket tag (comments: not listed)
 	Singles    []Single            `json:"singles"`
@@ -438,6 +494,11 @@ func genRule(rng *rand.Rand, uid *int, fns []Fn, closedFns bool) Rule {
 		r.Filter = rng.Intn(len(filters))
 		if rng.Intn(5) == 0 {
 			r.Filter = kSizeFilters[rng.Intn(len(kSizeFilters))] // spelled over the constant of the file
+		}
+		if rng.Intn(4) == 0 {
+			// names the type of the file: on the nodes whose types tell the files' interfaces apart
+			r.Filter = markerFilters[rng.Intn(len(markerFilters))]
+			r.Pat = []int{3, 3, 6, 13}[rng.Intn(4)]
 		}
 		if r.Pat == 8 && r.Filter != 4 {
 			// the condition of an if statement may have an untyped type; size/type predicates on it are C07's business
@@ -483,6 +544,7 @@ func genFile(rng *rand.Rand, id int, uid *int, pkgs map[string][]*SFile) *RFile 
 	sf := &SFile{ID: id, Name: fmt.Sprintf("f%d.go", id)}
 	sf.Fns = genFns(rng)
 	sf.KSize = []int{1, 2, 4, 8}[(id+rng.Intn(2))%4]
+	sf.Marker = []int{1, 2, 4, 8}[(id/2+rng.Intn(3))%4]
 	ng := 1 + rng.Intn(3)
 	badAt := -1
 	if rng.Intn(4) == 0 || id <= 3 {
@@ -494,7 +556,25 @@ func genFile(rng *rand.Rand, id int, uid *int, pkgs map[string][]*SFile) *RFile 
 		for ri := 0; ri < nr; ri++ {
 			g.Rules = append(g.Rules, genRule(rng, uid, sf.Fns, true))
 		}
-		if gi == badAt {
+		if gi == 0 && id != 7 && (id <= 3 || rng.Intn(3) != 0) && g.Rules[0].Kind == "syntax" {
+			// most files begin with a rule that names the file's own type (the files that fail to load: always)
+			g.Rules[0].Filter = markerFilters[rng.Intn(len(markerFilters))]
+			g.Rules[0].Fn = ""
+			g.Rules[0].Pat = []int{3, 3, 6, 13}[rng.Intn(4)]
+			g.Rules[0].RootTag = rootTag(syntaxPats[g.Rules[0].Pat])
+		}
+		if id == 7 { // file 7 of every pool: every syntax rule has a list pattern
+			for ri := range g.Rules {
+				if r := &g.Rules[ri]; r.Kind == "syntax" {
+					r.Pat = listPats[rng.Intn(len(listPats))]
+					if isMarkerFilter(r.Filter) && r.Pat != 13 {
+						r.Filter = 0
+					}
+					r.RootTag = rootTag(syntaxPats[r.Pat])
+				}
+			}
+		}
+		if gi == badAt && id != 7 {
 			*uid++
 			bad := Rule{UID: *uid, Kind: "bad", Bad: rng.Intn(10), Pat: rng.Intn(len(syntaxPats))}
 			switch id { // the first three files of every pool fail in one way of each class
@@ -512,6 +592,9 @@ func genFile(rng *rand.Rand, id int, uid *int, pkgs map[string][]*SFile) *RFile 
 	}
 	rf := &RFile{Main: sf}
 	shape := rng.Intn(10)
+	if id == 7 { // ... alone in its file: no bundle, nothing that fails
+		shape = 5
+	}
 	if id >= 4 && id <= 6 { // files 4-6 of every pool import one bundle more than once, in each of the three ways
 		shape = id + 3
 	}
@@ -531,9 +614,10 @@ func genFile(rng *rand.Rand, id int, uid *int, pkgs map[string][]*SFile) *RFile 
 	case 3:
 		rf.Bundles = []Bundle{{Prefix: "p1", Pkg: "rb2", Files: pkgs["rb2"]}, {Prefix: "p1", Pkg: "rb1", Files: pkgs["rb1"]}}
 	}
-	if rng.Intn(14) == 0 {
+	if rng.Intn(14) == 0 && id != 7 {
 		rf.Broken = true
 	}
+	sf.ListOnly = listOnly(sf)
 	return rf
 }
 
@@ -572,7 +656,8 @@ func main() {
 	fakeDir := flag.String("fake", "fake", "directory of the static bundle packages")
 	flag.Parse()
 	rng := rand.New(rand.NewSource(*seed))
-	out := &Output{NumBuckets: int(nodetag.NumBuckets), Acc: map[string][]string{}, AccErr: map[string]string{}, TagValues: map[string]int{}}
+	out := &Output{NumBuckets: int(nodetag.NumBuckets), AccAfter: map[string][]string{}, MarkerFilters: markerFilters, ListPats: listPats, SyntaxPats: syntaxPats,
+		Acc: map[string][]string{}, AccErr: map[string]string{}, TagValues: map[string]int{}}
 	for _, n := range []string{"BlockStmt", "CaseClause", "CommClause", "File", "CallExpr", "CompositeLit", "ReturnStmt", "BinaryExpr",
 		"UnaryExpr", "IndexExpr", "ParenExpr", "IfStmt", "AssignStmt", "FuncDecl", "Ident", "BasicLit", "ExprStmt"} {
 		out.TagValues[n] = int(nodetag.FromString(n))
@@ -648,7 +733,7 @@ func main() {
 	measure := func(sf *SFile) {
 		for _, g := range sf.Groups {
 			for _, r := range g.Rules {
-				one := &SFile{ID: sf.ID, Name: "single.go", Fns: sf.Fns, KSize: sf.KSize, Groups: []Group{{Name: "single", Rules: []Rule{r}}}}
+				one := &SFile{ID: sf.ID, Name: "single.go", Fns: sf.Fns, KSize: sf.KSize, Marker: sf.Marker, Groups: []Group{{Name: "single", Rules: []Rule{r}}}}
 				e := ruleguard.NewEngine()
 				o := load(e, t.Fset, "single.go", renderSFile("gorules", one, nil, false, false), "src", nil)
 				k := fmt.Sprint(r.UID)
@@ -669,6 +754,25 @@ func main() {
 					keys = append(keys, rp.Key)
 				}
 				out.Acc[k] = keys
+				// the same file on an engine with a load history: what a rule reports is not a matter of being first
+				e2 := ruleguard.NewEngine()
+				if o2 := load(e2, t.Fset, "ballast.go", ballast, "src", nil); !o2.OK {
+					problem("the ballast file does not load: %s%s", o2.Err, o2.Panic)
+					continue
+				}
+				keys2 := []string{}
+				if o2 := load(e2, t.Fset, "single.go", renderSFile("gorules", one, nil, false, false), "src", nil); !o2.OK {
+					keys2 = append(keys2, "load: "+o2.Err+o2.Panic)
+				} else {
+					reps2, prob2 := w.run(e2, nil)
+					if prob2 != "" {
+						keys2 = append(keys2, "run: "+prob2)
+					}
+					for _, rp := range reps2 {
+						keys2 = append(keys2, rp.Key)
+					}
+				}
+				out.AccAfter[k] = keys2
 			}
 		}
 	}
@@ -706,6 +810,10 @@ func main() {
 			}
 			if rng.Intn(3) == 0 {
 				op.Filter = rng.Intn(len(out.Filters))
+			}
+			if i == 0 && h%5 == 0 && len(out.Files) >= 7 {
+				// the file whose rules are all list patterns is the first thing the engine loads, with every group accepted
+				op.File, op.Filter = 6, -1
 			}
 			hist.Ops = append(hist.Ops, op)
 			var s Step
